@@ -51,14 +51,24 @@ class Check:
         self.notes.append(s)
 
     # -- verdict -------------------------------------------------------------
-    def finish(self):
+    def definite_violations(self):
+        """failed obligations that are not listed known findings"""
+        known = load_known()
+        return [o for o in self.obs if not o["ok"] and not match_known(known, self.pid, o)]
+
+    def finish(self, partial=None):
+        """partial: reason why a later rule could not be analysed.  Obligations that already failed name a specific
+        construct and stand on their own, so they are reported; nothing is concluded from the rules that did not run."""
         counts = {}
         for o in self.obs:
             counts[o["rule"]] = counts.get(o["rule"], 0) + 1
-        for rule, n in self.floors.items():
-            if counts.get(rule, 0) < n:
-                raise Broken("%s: rule %s matched %d instances, below the confirmed floor %d "
-                             "(anchor vanished or analysis vacuous)" % (self.pid, rule, counts.get(rule, 0), n))
+        if partial:
+            self.note("analysis incomplete (the rules after this point did not run): %s" % partial)
+        else:
+            for rule, n in self.floors.items():
+                if counts.get(rule, 0) < n:
+                    raise Broken("%s: rule %s matched %d instances, below the confirmed floor %d "
+                                 "(anchor vanished or analysis vacuous)" % (self.pid, rule, counts.get(rule, 0), n))
         if not self.obs:
             raise Broken("%s: no obligations generated" % self.pid)
         known = load_known()
